@@ -464,6 +464,11 @@ func frameBlocked(p *Program, cs *ContractSet) []*FrameResult {
 							ranged = true
 						}
 					}
+					if c, ok := x.X.(*ssa.Call); ok {
+						if sc := c.Common().StaticCallee(); sc != nil && sc.String() == modPfx+"app.GetMaccPerms" && copiesAllOfMaccPerms(sc) {
+							ranged = true
+						}
+					}
 				case *ssa.Call:
 					if bi, ok := x.Common().Value.(*ssa.Builtin); ok && bi.Name() == "delete" {
 						name, ok := traceModuleAddressString(x.Common().Args[1])
@@ -694,4 +699,28 @@ func onlyFeedsTelemetry(in ssa.Instruction) bool {
 		}
 	}
 	return true
+}
+
+// copiesAllOfMaccPerms: the function ranges over the global maccPerms and stores every visited key into the map it returns.
+func copiesAllOfMaccPerms(fn *ssa.Function) bool {
+	ranges, updates := false, false
+	for _, b := range fn.Blocks {
+		for _, in := range b.Instrs {
+			switch x := in.(type) {
+			case *ssa.Range:
+				if u, ok := x.X.(*ssa.UnOp); ok {
+					if g, ok := u.X.(*ssa.Global); ok && g.Name() == "maccPerms" {
+						ranges = true
+					}
+				}
+			case *ssa.MapUpdate:
+				if e, ok := x.Key.(*ssa.Extract); ok {
+					if _, ok := e.Tuple.(*ssa.Next); ok && e.Index == 1 {
+						updates = true
+					}
+				}
+			}
+		}
+	}
+	return ranges && updates
 }
